@@ -46,6 +46,9 @@ use rand::{Rng, RngExt};
 /// cast generated samples to any integer type which can also represent `n`
 /// (e.g. `distr.sample(&mut rng) as u64`).
 ///
+/// For `n = inf` sampled values may be infinite, as for [`Zeta`](crate::Zeta):
+/// infinity is returned when the proposal overflows the float type.
+///
 /// # Implementation details
 ///
 /// Implemented via [rejection sampling](https://en.wikipedia.org/wiki/Rejection_sampling),
@@ -162,6 +165,13 @@ where
                 // `inv_cdf` maps `[0, 1)` to `[0, n)` only up to rounding: for the
                 // largest uniform values `inv_b` can round to `n`, giving `n + 1`.
                 continue;
+            }
+            if x.is_infinite() {
+                // Only reachable for `n = inf`: the proposal overflowed. The ratio
+                // below would be NaN and the proposal rejected; for `s` close to 1
+                // almost every proposal overflows and the loop would practically
+                // never end. Like `Zeta`, return infinity instead.
+                return x;
             }
             let mut ratio = x.powf(-self.s);
             if x > one {
